@@ -38,6 +38,7 @@ fn any_ascii<const N: usize>() -> ([u8; N], usize) {
 // @fn parse_index
 // @bound all ASCII strings of at most 3 bytes (the real str::parse::<usize> is executed)
 // @clause the one-based to zero-based index conversion never panics: for the decimal n >= 1 it returns n - 1, and for "0", the empty string, signs other than a leading '+', and any non-digit it returns an error (or, for "+n", n - 1)
+#[cfg(not(verif_skip_io_parse_index_total))]
 #[kani::proof]
 #[kani::unwind(6)]
 fn io_parse_index_total() {
@@ -62,6 +63,7 @@ fn io_parse_index_total() {
 // @fn parse_indices ; parse_index
 // @bound all ASCII strings of at most 5 bytes
 // @clause the v, v/vt, v//vn and v/vt/vn index forms never panic and put position, texcoord and normal into the right slots, each converted from one-based to zero-based; a missing position, an index 0 or trailing garbage is an error
+#[cfg(not(verif_skip_io_parse_indices_forms))]
 #[kani::proof]
 #[kani::unwind(8)]
 fn io_parse_indices_forms() {
